@@ -56,12 +56,16 @@ def selector_args(sel, via, env, env_idx, env_path, flag_idx, flag_path):
         t = utf8(rest[0])
         if via.get("index") == "env" and env_idx:
             env[env_idx] = t
+        elif via.get("index") == "sep" and not t.startswith("-"):
+            argv += [flag_idx, t]
         else:
             argv += [flag_idx + "=" + t]
     if kind in ("path", "both"):
         t = utf8(rest[-1])
         if via.get("path") == "env" and env_path:
             env[env_path] = t
+        elif via.get("path") == "sep" and not t.startswith("-"):
+            argv += [flag_path, t]
         else:
             argv += [flag_path + "=" + t]
     return argv
